@@ -380,6 +380,7 @@ def run(ctx):
                   "a sign waiting for its consonant counts as an ongoing session, and is discarded by one backspace — as observed through the context / C API")
     common.context_delegation(r9, prog, ["ongoing_input_session", "backspace_event", "get_suggestion"])
     r9.floor(3, "three entry points")
+    common.value_reaches_processor(r9, prog)
 
     # ---------------- R3 not shown / session / one back-space
     r3 = chk.rule("C14.R3", "the pending sign is never rendered, counts as session, and is discarded by one back-space without a pop",
